@@ -551,6 +551,10 @@ func (e *Env) evalIndex(n *ast.IndexExpr) Val {
 
 func ghostSort(ty string) (Sort, types.Type) {
 	switch ty {
+	case "[]byte":
+		return SInt, types.NewSlice(types.Typ[types.Uint8])
+	case "[]string":
+		return SInt, types.NewSlice(types.Typ[types.String])
 	case "int":
 		return SInt, types.Typ[types.Int]
 	case "bool":
@@ -754,6 +758,26 @@ func (e *Env) evalCall(n *ast.CallExpr) Val {
 		r := new(big.Rat)
 		r.SetFloat64(f)
 		return Val{Typ: types.Typ[types.Float64], C: []*T{RealLit(r)}}
+	case "fresh":
+		// fresh(x): x was not allocated in the old state (slices: nil or freshly allocated backing array)
+		if e.old == nil {
+			e.fail("fresh() needs an old state")
+		}
+		v := arg(0)
+		oldAlloc := e.old.heapGet("Alloc", ArrSort(SInt, SBool))
+		if len(v.C) == 4 {
+			return boolVal(Or(Eq(v.C[0], IntLit(0)), Not(Select(oldAlloc, v.C[0]))))
+		}
+		return boolVal(And(Ne(v.C[0], IntLit(0)), Not(Select(oldAlloc, v.C[0]))))
+	case "hexOf", "b64Of":
+		v := arg(0)
+		sl, ok := v.Typ.Underlying().(*types.Slice)
+		if !ok {
+			e.fail("%s of non-slice", fname)
+		}
+		el := e.st.elemsOf(v.C[0], sl.Elem())
+		r := App(fname, SStr, el[0], v.C[1], v.C[2])
+		return strVal(r)
 	case "seqeq":
 		// seqeq(a, b): slices with equal length and contents
 		a, b := arg(0), arg(1)
@@ -762,6 +786,8 @@ func (e *Env) evalCall(n *ast.CallExpr) Val {
 		// held(mu): lock state of a mutex sub-object (pointer or struct value handle)
 		mu := arg(0)
 		return boolVal(Select(e.st.heapGet("Held", ArrSort(SInt, SBool)), mu.C[0]))
+	case "allocated0":
+		return boolVal(Select(Sym("Alloc!0", ArrSort(SInt, SBool)), arg(0).C[0]))
 	case "allocated":
 		return boolVal(Select(e.st.heapGet("Alloc", ArrSort(SInt, SBool)), arg(0).C[0]))
 	case "closed":
